@@ -40,6 +40,9 @@ type Workload struct {
 	Instants []Instant               `json:"instants,omitempty"`
 	// when Instants is empty the run derives them from the control run (generation time only)
 	AutoInstants int `json:"auto_instants,omitempty"`
+	// SigKind: what the host passes as Signal: 0 pointer to a struct with state, 1 empty struct value,
+	// 2 typed nil pointer with a nil-safe method, 3 function adapter, 4 small struct by value
+	SigKind int `json:"sig_kind,omitempty"`
 }
 
 type Prop struct{}
@@ -324,6 +327,9 @@ func (Prop) Generate(seed uint64, tier string) *core.Plan {
 			w.Interps = []string{"v1", "v2"}
 		}
 	}
+	if r.Intn(3) == 0 {
+		w.SigKind = 1 + r.Intn(4)
+	}
 	w.AutoInstants = 24
 	if tier == "thorough" {
 		w.AutoInstants = 200
@@ -367,6 +373,44 @@ func (s *signal) ExitSignal() bool {
 		}
 	}
 	return fire
+}
+
+// The host decides what implements the Signal interface. Besides the pointer to a struct with state
+// (the textbook form) hosts use stateless values that consult process-wide state: an empty struct,
+// a typed nil pointer whose method is safe on a nil receiver, a function adapter. All of them must
+// be polled like any other signal. hostSig points at the state of the run in progress.
+var hostSig *signal
+
+type emptySig struct{}
+
+func (emptySig) ExitSignal() bool { return hostSig.ExitSignal() }
+
+type nilSafeSig struct{ _ int }
+
+func (*nilSafeSig) ExitSignal() bool { return hostSig.ExitSignal() }
+
+type funcSig func() bool
+
+func (f funcSig) ExitSignal() bool { return f() }
+
+type valueSig struct{ flag bool } // a small struct passed by value (its fields happen to be zero)
+
+func (valueSig) ExitSignal() bool { return hostSig.ExitSignal() }
+
+// hostSignal wraps the run's signal state in the host's chosen implementation kind.
+func hostSignal(kind int, st *signal) interface{ ExitSignal() bool } {
+	hostSig = st
+	switch kind {
+	case 1:
+		return emptySig{}
+	case 2:
+		return (*nilSafeSig)(nil)
+	case 3:
+		return funcSig(st.ExitSignal)
+	case 4:
+		return valueSig{}
+	}
+	return st
 }
 
 type runOut struct {
@@ -483,7 +527,7 @@ func (Prop) Run(p *core.Plan) *core.Result {
 				pt := input.GetPoint()
 				defer input.PutPoint(pt)
 				input.InitPt(pt, "m", map[string]string{"t": "1"}, map[string]any{"message": "x"}, world.BaseTime)
-				return root.Run(pt, sig)
+				return root.Run(pt, hostSignal(w.SigKind, sig))
 			}
 		case "v2":
 			fn := map[string]*runtimev2.Fn{"p": {
@@ -517,7 +561,7 @@ func (Prop) Run(p *core.Plan) *core.Result {
 			if err != nil {
 				return &core.Result{Infra: fmt.Sprintf("generated program rejected by the v2 loader: %v\n%s", err, src["main.p"])}
 			}
-			exec = func(sig *signal) *errchain.PlError { return s.Run(sig) }
+			exec = func(sig *signal) *errchain.PlError { return s.Run(hostSignal(w.SigKind, sig)) }
 		default:
 			return &core.Result{Infra: "unknown interpreter " + interp}
 		}
